@@ -38,6 +38,8 @@ C2 = '===DOC===\nMETA:\n  TYPE::NOTE\nA::3\nZ::"second"\n===END===\n'
 BROKEN_FILE = "not octave {{{"
 CH1 = {"A": 7}
 CH2 = {"N": "v"}
+M1 = {"STATUS": "draft"}
+M2 = {"OWNER": "b"}
 WA = '===DOC===\nMETA:\n  TYPE::NOTE\nW::"writer A"\n===END===\n'
 WB = '===DOC===\nMETA:\n  TYPE::NOTE\nW::"writer B"\n===END===\n'
 sha = c16.sha
@@ -52,6 +54,12 @@ CALLS = {
     "dry:C2": ("execute", {"content": C2, "corrections_only": True}),
     "dry:CH1": ("execute", {"changes": CH1, "corrections_only": True}),
     "dry:normalize": ("execute", {"corrections_only": True}),
+    "dry:CH2": ("execute", {"changes": CH2, "corrections_only": True}),
+    "dry:CH1+M1": ("execute", {"changes": CH1, "mutations": M1, "corrections_only": True}),
+    "changes:CH1+M1": ("execute", {"changes": CH1, "mutations": M1}),
+    "changes:CH2+M2": ("execute", {"changes": CH2, "mutations": M2}),
+    "content:C1+M1": ("execute", {"content": C1, "mutations": M1}),
+    "content:C2+M2": ("execute", {"content": C2, "mutations": M2}),
     "atomic:C2": ("atomic", {"content": C2}),
     "atomic:RAW": ("atomic", {"content": NONCANON}),
     # the CLI `octave write F --content .. | --changes .. [--base-hash H]`
@@ -60,7 +68,8 @@ CALLS = {
     "cli-changes:CH1": ("cli", {"changes": CH1}),
     "cli-changes:CH2": ("cli", {"changes": CH2}),
 }
-PIPE_OF = {"dry:C2": "content:C2", "dry:CH1": "changes:CH1", "dry:normalize": "normalize"}
+PIPE_OF = {"dry:C2": "content:C2", "dry:CH1": "changes:CH1", "dry:normalize": "normalize", "dry:CH2": "changes:CH2",
+           "dry:CH1+M1": "changes:CH1+M1"}
 MODE_OF = {"content": "content", "changes": "changes", "normalize": "normalize", "dry": None, "atomic": "atomic"}
 EXTS = {
     "ext:noncanon": (NONCANON, 0o644), "ext:broken": (BROKEN_FILE, 0o640), "ext:front": (FRONT, 0o600),
@@ -75,7 +84,7 @@ META_ERRNOS = c16.META_ERRNOS
 def model_mode(opkey):
     k = opkey.split(":")[0]
     if k == "dry":
-        return {"dry:C2": "content", "dry:CH1": "changes", "dry:normalize": "normalize"}[opkey]
+        return PIPE_OF[opkey].split(":")[0]
     return k
 
 
@@ -103,7 +112,23 @@ def _diff(a, b):
 
 
 def _job_hist(fi, job):
-    root, target = job["root"], job["target"]
+    """A SESSION: one or more histories (each in its own sandbox) run one after the other.  job["instance"]:
+    "fresh"   -- a new WriteTool for every call,
+    "history" -- one WriteTool per history,
+    "session" -- ONE WriteTool for all histories of the session (what a long-lived MCP server process keeps)."""
+    from octave_mcp.mcp.write import WriteTool
+    mode = job.get("instance", "history")
+    holder = {"tool": WriteTool() if mode == "session" else None}
+    out = []
+    for h in job["histories"]:
+        if mode == "history":
+            holder["tool"] = WriteTool()
+        out.append(_run_history(fi, holder, mode, h["root"], h["target"], h["steps"]))
+    with open(job["res"], "w") as f:
+        json.dump({"histories": out}, f)
+
+
+def _run_history(fi, holder, mode, root, target, steps_in):
     rel = os.path.relpath(target, root)
     plan = fi.Plan(root, target)
     plan.enabled = False
@@ -111,7 +136,6 @@ def _job_hist(fi, job):
     from octave_mcp.core.file_ops import atomic_write_octave
     from octave_mcp.mcp.write import WriteTool
     import asyncio
-    tool = WriteTool()
     texts = []
 
     def tid(v):
@@ -124,7 +148,7 @@ def _job_hist(fi, job):
     seen = []
     steps = []
     last_base = None
-    for st in job["steps"]:
+    for st in steps_in:
         before = _snap(root)
         cur = before.get(rel)
         cur_text = None if cur is None or cur[0] != "F" else cur[1].decode("utf-8", "surrogateescape")
@@ -178,6 +202,7 @@ def _job_hist(fi, job):
                     elif api == "cli":
                         r = c16._call_cli(target, kw)
                     else:
+                        tool = WriteTool() if mode == "fresh" else holder["tool"]
                         r = asyncio.run(tool.execute(target_path=target, **kw))
                 finally:
                     plan.enabled = False
@@ -199,8 +224,7 @@ def _job_hist(fi, job):
         if not rec["same"]:
             rec["diff"] = _diff(before, after)[:8]
         steps.append(rec)
-    with open(job["res"], "w") as f:
-        json.dump({"steps": steps, "texts": texts}, f)
+    return {"steps": steps, "texts": texts}
 
 
 def _drive(ctl, bits):
@@ -361,6 +385,7 @@ INITS = {
 BYST = [("d/other.txt", "F", c16.BYSTANDER, 0o644), ("z", "D", "", 0), ("z/keep.oct.md", "F", OLD, 0o600)]
 
 _PIPE = {}        # opkey -> {state text | None: canonical | None}
+_MISSING = object()
 _INIT_SENT = False
 
 
@@ -394,6 +419,30 @@ def _run_job(kind, init, payload):
             with open(job["res"] + ".err") as f:
                 err = f.read()
         return code, res, err, c16.snapshot(root)
+    finally:
+        shutil.rmtree(jd, ignore_errors=True)
+
+
+def _run_session(hists, instance):
+    """hists = [(init dict, steps)]; every history gets its own fresh sandbox; returns (exit, [rec per history] | None, err)"""
+    jd = tempfile.mkdtemp(prefix="job", dir=c16._SCRATCH)
+    try:
+        hs = []
+        for i, (init, steps) in enumerate(hists):
+            root = os.path.join(jd, f"h{i}", "sb")
+            c16.build_fs(root, init["fs"] + BYST)
+            hs.append({"root": root, "target": os.path.join(root, init["target"]), "steps": steps})
+        job = {"kind": "hist", "histories": hs, "instance": instance, "res": os.path.join(jd, "res.json")}
+        code = _server().run(job)
+        res = None
+        if os.path.exists(job["res"]):
+            with open(job["res"]) as f:
+                res = json.load(f)["histories"]
+        err = None
+        if os.path.exists(job["res"] + ".err"):
+            with open(job["res"] + ".err") as f:
+                err = f.read()
+        return code, res, err
     finally:
         shutil.rmtree(jd, ignore_errors=True)
 
@@ -505,10 +554,19 @@ def only_new_parent_dirs(diff, target_rel):
     return all(b is None and a == "D" and rel in anc for rel, b, a in diff)
 
 
-def judge_hist(init, steps, rec):
-    """[(what, finding)] -- the C17 statement evaluated directly on the recorded history."""
+def non_altering(st, r):
+    """a call that must not change anything: corrections_only, or status=error"""
+    return (not st["op"].startswith("ext:")) and (st["op"].startswith("dry:") or r["env"]["status"] in ("error", "raised"))
+
+
+def judge_hist(init, steps, rec, prior=()):
+    """([(what, finding)], [what]) -- the C17 statement evaluated directly on the recorded history (property failures), and
+    effect mismatches that cannot be tied to a dry / failed call (reported as correspondence failures).
+    `prior`: descriptions of dry / failed calls made EARLIER IN THE SAME PROCESS (previous histories of the session)."""
     out = []
+    loose = []
     texts = rec["texts"]
+    earlier = list(prior)
     for i, (st, r) in enumerate(zip(steps, rec["steps"])):
         if st["op"].startswith("ext:"):
             continue
@@ -516,6 +574,22 @@ def judge_hist(init, steps, rec):
         cur = None if r["cur"] is None else texts[r["cur"]]
         aft = None if r["after"] is None else texts[r["after"]]
         dry = st["op"].startswith("dry:")
+        # (c) over a history: what a SUCCESSFUL write installs is exactly (content before) (+) THIS request -- nothing of an
+        # earlier corrections_only / failed call may land on disk later.  Expected text: the pipeline oracle (fresh process,
+        # fresh tool, same file content, same request).
+        if env["status"] == "success" and not dry:
+            api, kw = CALLS[st["op"]]
+            pk = PIPE_OF.get(st["op"], st["op"])
+            exp = kw["content"] if api == "atomic" else _PIPE.get(pk, {}).get(cur, _MISSING)
+            if exp is not _MISSING and exp is not None and (aft != exp or env["hash"] != sha(exp)):
+                what = (f"request-mix: step {i} ({st['op']}, status=success) installed a text that is not (content before (+) this request)"
+                        f" [file hash {sha(aft)[:12] if aft is not None else None}, envelope {env['hash'][:12]}, expected {sha(exp)[:12]}]")
+                if earlier:
+                    out.append((what + f"; earlier calls that had to leave no trace: {earlier[-3:]}", None))
+                else:
+                    loose.append(what)
+        if non_altering(st, r):
+            earlier.append(f"step {i} {st['op']} -> {env['status']} {env.get('code', '')}".strip())
         if r.get("unexpected"):
             out.append((f"non-atomic-op at step {i}: {r['unexpected']}", None))
         # (a) compare-and-swap
@@ -546,12 +620,13 @@ def judge_hist(init, steps, rec):
                 fid = FINDING_MKDIR
             kind = "dry-changed" if dry and env["status"] != "error" else "error-changed"
             out.append((f"{kind}: step {i} ({st['op']}, status={env['status']} {env.get('code', '')}) changed the file system: {r.get('diff')}", fid))
-    return out
+    return out, loose
 
 
 def _hist_chunk(task):
-    """worker: run a chunk of histories, compare with the model, judge.  Returns a compact summary."""
-    chunk, have_model = task
+    """worker: run a chunk of SESSIONS (a session = list of histories run in one child process, see _job_hist), compare every
+    history with the model, judge.  task = (sessions, have_model, instance).  Returns a compact summary."""
+    sessions, have_model, instance = task
     from lib.model import run_driver
     summ = {"steps": 0, "hist": 0, "prop": [], "corr": [], "h": {}, "keys": [], "samples": [], "meta": []}
 
@@ -559,40 +634,55 @@ def _hist_chunk(task):
         summ["h"].setdefault(name, {})
         summ["h"][name][b] = summ["h"][name].get(b, 0) + n
     lines, metas = [], []
-    for init_name, steps in chunk:
-        init = INITS[init_name] if isinstance(init_name, str) else init_name
-        code, rec, err, _ = _run_job("hist", init, {"steps": steps})
-        case = {"init": init_name, "steps": steps}
-        if rec is None:
-            summ["corr"].append((case, f"harness: child exit {code}: {str(err)[-400:]}"))
+    for sess in sessions:
+        inits = [INITS[n] if isinstance(n, str) else n for n, _ in sess]
+        code, recs, err = _run_session([(ini, st) for ini, (_, st) in zip(inits, sess)], instance)
+        if recs is None:
+            summ["corr"].append(({"instance": instance, "session": [{"init": n, "steps": st} for n, st in sess]},
+                                 f"harness: child exit {code}: {str(err)[-400:]}"))
             continue
-        case["observed"] = [{"env": r["env"], "base": r["base"], "same": r["same"]} for r in rec["steps"]]
-        if rec["steps"] and rec["steps"][0].get("meta_ops") and len(steps) == 1 and isinstance(init_name, str):
-            summ["meta"].append((init_name, steps[0], rec["steps"][0]["meta_ops"]))
-        summ["hist"] += 1
-        summ["steps"] += len(steps)
-        summ["keys"].append(hashlib.blake2b(json.dumps([init_name, steps], sort_keys=True, default=str).encode(), digest_size=10).hexdigest())
-        h("length", len(steps))
-        h("init", init_name if isinstance(init_name, str) else "custom")
-        for st, r in zip(steps, rec["steps"]):
-            h("op", st["op"])
-            if st.get("fault"):
-                h("fault", st["fault"]["name"] + ":" + c16.ALL_ERRNO_NAMES.get(st["fault"]["errno"], str(st["fault"]["errno"])))
-            if not st["op"].startswith("ext:"):
-                h("base", st["base"])
-                h("result", r["env"]["status"] + (":" + r["env"]["code"] if r["env"]["status"] == "error" else ""))
-                if r["base"] and r["cur"] is not None:
-                    h("cas_case", "match" if sha(rec["texts"][r["cur"]]) == r["base"] else "mismatch")
-        for what, fid in judge_hist(init, steps, rec):
-            summ["prop"].append((case, what, fid))
-        if len(summ["samples"]) < 2:
-            summ["samples"].append({"init": init_name if isinstance(init_name, str) else "custom target " + init["target"][:12] + "...(%d chars)" % len(init["target"]), "steps": [s["op"] + "/" + str(s.get("base")) for s in steps],
-                                    "results": [list(env_tuple(r["env"]))[:1] + [env_tuple(r["env"])[1][:12]] for r in rec["steps"]]})
-        if have_model and isinstance(init_name, str):
-            line, kept = hist_model_line(init, steps, rec)
-            if kept:
-                lines.append(line)
-                metas.append((case, init, steps, rec, kept))
+        prior = []
+        for hi, ((init_name, steps), init, rec) in enumerate(zip(sess, inits, recs)):
+            # the replay of a failure is the session up to and including this history, on the same kind of instance
+            case = {"instance": instance, "session": [{"init": n, "steps": st} for n, st in sess[: hi + 1]]}
+            case["observed"] = [{"env": r["env"], "base": r["base"], "same": r["same"]} for r in rec["steps"]]
+            if rec["steps"] and rec["steps"][0].get("meta_ops") and len(steps) == 1 and isinstance(init_name, str):
+                summ["meta"].append((init_name, steps[0], rec["steps"][0]["meta_ops"]))
+            summ["hist"] += 1
+            summ["steps"] += len(steps)
+            summ["keys"].append(hashlib.blake2b(json.dumps([instance, init_name, steps] + ([sess[:hi]] if instance == "session" else []),
+                                                           sort_keys=True, default=str).encode(), digest_size=10).hexdigest())
+            h("length", len(steps))
+            h("init", init_name if isinstance(init_name, str) else "custom")
+            h("instance", instance)
+            for st, r in zip(steps, rec["steps"]):
+                h("op", st["op"])
+                if st.get("fault"):
+                    h("fault", st["fault"]["name"] + ":" + c16.ALL_ERRNO_NAMES.get(st["fault"]["errno"], str(st["fault"]["errno"])))
+                if not st["op"].startswith("ext:"):
+                    h("base", st["base"])
+                    h("result", r["env"]["status"] + (":" + r["env"]["code"] if r["env"]["status"] == "error" else ""))
+                    if r["base"] and r["cur"] is not None:
+                        h("cas_case", "match" if sha(rec["texts"][r["cur"]]) == r["base"] else "mismatch")
+            props, loose = judge_hist(init, steps, rec, prior)
+            for what, fid in props:
+                summ["prop"].append((case, what, fid))
+            for what in loose:
+                summ["corr"].append((case, what))
+            for k, (st, r) in enumerate(zip(steps, rec["steps"])):
+                if non_altering(st, r):
+                    prior.append(f"history {hi} step {k} {st['op']} -> {r['env']['status']} {r['env'].get('code', '')}".strip())
+                    h("non_altering_then", "followed" if (k + 1 < len(steps) or hi + 1 < len(sess)) else "last")
+            if len(summ["samples"]) < 2:
+                summ["samples"].append({"instance": instance,
+                                        "init": init_name if isinstance(init_name, str) else "custom target " + init["target"][:12] + "...(%d chars)" % len(init["target"]),
+                                        "steps": [s_["op"] + "/" + str(s_.get("base")) for s_ in steps],
+                                        "results": [list(env_tuple(r["env"]))[:1] + [env_tuple(r["env"])[1][:12]] for r in rec["steps"]]})
+            if have_model and isinstance(init_name, str):
+                line, kept = hist_model_line(init, steps, rec)
+                if kept:
+                    lines.append(line)
+                    metas.append((case, init, steps, rec, kept))
     if lines:
         outs = run_driver("fsw", lines)
         for o, (case, init, steps, rec, kept) in zip(outs, metas):
@@ -615,6 +705,12 @@ def _hist_chunk(task):
             if bad:
                 summ["corr"].append((case, "; ".join(bad)[:1500]))
     return summ
+
+
+def pack(hs, instance, have_model, per_session, per_chunk):
+    """[(init, steps)] -> chunk tasks of sessions"""
+    sessions = [hs[i:i + per_session] for i in range(0, len(hs), per_session)]
+    return [(sessions[i:i + per_chunk], have_model, instance) for i in range(0, len(sessions), per_chunk)]
 
 
 # ---- two writers ---------------------------------------------------------------------------------------------
@@ -680,7 +776,8 @@ def mkstep(p):
 def oracle_closure(ctx):
     """PIPE[opkey][state] = canonical text (None = pipeline refuses), over the closure of reachable file contents.
     Each entry is one fault-free run of the real implementation in a scratch sandbox (no base_hash, not dry)."""
-    pipe_keys = ["content:C1", "content:C2", "changes:CH1", "changes:CH2", "normalize"] + list(CLI_OPS)
+    pipe_keys = ["content:C1", "content:C2", "changes:CH1", "changes:CH2", "normalize", "changes:CH1+M1", "changes:CH2+M2",
+                 "content:C1+M1", "content:C2+M2"] + list(CLI_OPS)
     states = [None, OLD, NONCANON, BROKEN_FILE, FRONT, C1, C2, ""]
     for k in pipe_keys:
         _PIPE[k] = {}
@@ -776,13 +873,14 @@ def _run(ctx, pool):
     witness_fail = {}
     for n, c in hist_corpus:
         init = c["init"] if isinstance(c["init"], str) else {"target": c["init"]["target"], "fs": [tuple(x) for x in c["init"]["fs"]]}
-        summ = _hist_chunk(([(init, c["steps"])], have_model))
+        summ = _hist_chunk(([[(init, c["steps"])]], have_model, c.get("instance", "history")))
         if c.get("finding"):
             witness_fail[c["finding"]] = witness_fail.get(c["finding"], False) or any(f == c["finding"] for _, _, f in summ["prop"])
         _merge(ctx, summ)
 
     # ---- histories ----------------------------------------------------------------------------------------------
     hs = []
+    hs_rand = []
     rng = ctx.rng
     if not ctx.quick():
         for L in range(1, 5):
@@ -802,7 +900,7 @@ def _run(ctx, pool):
                 steps.append(mkstep(rng.choice(POOL_EXH[:16])))
             else:
                 steps.append(mkstep((rng.choice(list(CALLS)), rng.choice(BASES5))))
-        hs.append((rng.choice(inits), steps))
+        hs_rand.append((rng.choice(inits), steps))
     # CLI matrix (both tiers): every (CLI mode, hash kind) after every kind of prefix, from every initial state
     prefixes = [[], [("content:C1", "none")], [("ext:noncanon", None)], [("ext:delete", None)], [("changes:CH2", "current")]]
     n_cli = 0
@@ -818,8 +916,37 @@ def _run(ctx, pool):
         for op in seed_ops:
             for b in ("none", "current"):
                 hs.append((init, [mkstep((op, b))]))
-    csize = 40 if ctx.quick() else 250
-    chunks = [(hs[i:i + csize], have_model) for i in range(0, len(hs), csize)]
+    # leak stream (both tiers): a call that must leave no trace -- corrections_only, or a call that FAILS (injected failure of
+    # os.replace / of the data write, or a refused base_hash) -- FOLLOWED by a successful call with a DIFFERENT request on the
+    # same unchanged content; all modes, with/without base_hash, with/without mutations.  Run on a fresh tool per call, on one
+    # tool per history, on one long-lived tool per session, and (session) with the two calls in different sandboxes.
+    firsts = [{"op": op, "base": b} for op in ("dry:CH1", "dry:CH2", "dry:C2", "dry:normalize", "dry:CH1+M1") for b in ("none", "current")]
+    for op in ("changes:CH1", "changes:CH1+M1", "content:C1", "content:C1+M1", "normalize"):
+        for b in ("none", "current"):
+            firsts.append({"op": op, "base": b, "fault": {"name": "replace", "occ": 0, "errno": c16.ERRNOS["EIO"]}})
+            firsts.append({"op": op, "base": b, "fault": {"name": "write", "occ": 0, "errno": c16.ERRNOS["ENOSPC"]}})
+    firsts.append({"op": "changes:CH1", "base": "garbage"})
+    seconds = [{"op": op, "base": b} for op in ("changes:CH2", "changes:CH2+M2", "changes:CH1", "content:C2", "content:C2+M2", "normalize")
+               for b in ("none", "current")]
+    leak_same, leak_cross = [], []
+    for init in ("existing", "noncanon"):
+        for f1 in firsts:
+            for s2 in seconds:
+                if f1["op"].replace("dry:", "changes:") == s2["op"]:
+                    continue
+                leak_same.append((init, [f1, s2]))
+                leak_cross += [(init, [f1]), (init, [s2])]
+    ps, pc = 6, (7 if ctx.quick() else 40)
+    chunks = pack(hs, "history", have_model, ps, pc)
+    modes = ("fresh", "history", "session")
+    third = (len(hs_rand) + 2) // 3
+    for mi, mode in enumerate(modes):
+        chunks += pack(hs_rand[mi * third:(mi + 1) * third], mode, have_model, ps, pc)
+        chunks += pack(leak_same, mode, have_model, ps, pc)
+    chunks += pack(leak_cross, "session", have_model, 2, pc * 3)
+    ctx.extra["leak_stream"] = {"two_call_histories_per_instance_mode": len(leak_same), "cross_sandbox_sessions": len(leak_cross) // 2,
+                                "non_altering_first_calls": len(firsts), "second_calls": len(seconds)}
+    hs = hs + hs_rand + leak_same * 3 + leak_cross
     meta_seeds = {}
     for summ in pool.imap_unordered(_hist_chunk, chunks):
         _merge(ctx, summ)
@@ -836,7 +963,7 @@ def _run(ctx, pool):
                 first = {"op": op, "base": b, "fault": {"name": name, "occ": occ, "errno": e}}
                 fh.append((init_name, [first, {"op": op, "base": "same"}]))
                 fh.append((init_name, [{"op": "ext:C1", "base": None}, first, {"op": op, "base": "same"}]))
-    for summ in pool.imap_unordered(_hist_chunk, [(fh[i:i + 40], have_model) for i in range(0, len(fh), 40)]):
+    for summ in pool.imap_unordered(_hist_chunk, pack(fh, "history", have_model, ps, pc)):
         _merge(ctx, summ)
     ctx.extra["histories"] = len(hs) + len(fh)
     ctx.extra["cli_matrix_histories"] = n_cli
@@ -956,7 +1083,10 @@ def _run(ctx, pool):
         + " over 4 initial states (existing / absent / missing parent / non-canonical), op pool = 14 call kinds (execute x 3 modes, dry, "
           "atomic_write_octave, CLI --content / --changes) x {none,current,stale,future,garbage} + 6 external modifications; + CLI matrix (4 "
           "inits x 5 prefixes x 4 CLI ops x 5 hash kinds); + metadata-fault stream (every chmod-like call occurrence of 56 seed calls x "
-          "{EPERM,EACCES,EROFS,ENOENT}, followed by the retry with the same base_hash). Schedules: " + ("30 in-window + 30 outside sampled merges + model witness + 2 serial, 4 writer configs, threads; 7 with processes"
+          "{EPERM,EACCES,EROFS,ENOENT}, followed by the retry with the same base_hash); + leak stream (31 non-altering first calls [dry / "
+          "failed under an injected failure / refused hash] x 12 different successful second calls x 2 initial contents, on a fresh tool per "
+          "call, one tool per history, one long-lived tool per session, and across two sandboxes). Random histories are split over the three "
+          "tool-instance modes; histories are run 6 per child process (a failure's replay is the session prefix). Schedules: " + ("30 in-window + 30 outside sampled merges + model witness + 2 serial, 4 writer configs, threads; 7 with processes"
                                                    if ctx.quick() else "all 924 merges x 4 writer configs (threads) + 924 x 2 configs (processes)"))
 
 
@@ -972,9 +1102,14 @@ def replay(ctx, case):
             print(json.dumps(r, indent=1, default=str))
             both = all("env" in r["results"].get(w, {}) and r["results"][w]["env"]["status"] == "success" for w in ("A", "B"))
             return 1 if both else 0
-        init = c["init"] if isinstance(c["init"], str) else {"target": c["init"]["target"], "fs": [tuple(x) for x in c["init"]["fs"]]}
-        summ = _hist_chunk(([(init, c["steps"])], False))
-        print(json.dumps({"violations": [(w, f) for _, w, f in summ["prop"]]}, indent=1))
+        def ini(x):
+            return x if isinstance(x, str) else {"target": x["target"], "fs": [tuple(y) for y in x["fs"]]}
+        if "session" in c:
+            sess = [(ini(h["init"]), h["steps"]) for h in c["session"]]
+        else:
+            sess = [(ini(c["init"]), c["steps"])]
+        summ = _hist_chunk(([sess], False, c.get("instance", "history")))
+        print(json.dumps({"violations": [(w, f) for _, w, f in summ["prop"]], "other": [w for _, w in summ["corr"]]}, indent=1))
         return 1 if summ["prop"] else 0
     finally:
         if c16._SERVER is not None:
